@@ -7,7 +7,7 @@
    The square root enters only through the norm s of the face normal n: hypotheses  s * s = <n,n>, s <> 0. *)
 From Coq Require Import ZArith List Bool Ring Field Lia.
 Import ListNotations.
-Require Import MV.Lib.Base MV.C08.Ops MV.C08.Gen MV.C08.Model MV.C08.Proofs_Struct.
+Require Import MV.Lib.Base MV.C08.Ops MV.C08.Gen MV.C08.Model MV.C08.Proofs_Struct MV.C08.Proofs_Dual.
 Open Scope Z_scope.
 
 Section Geom.
@@ -142,8 +142,8 @@ Lemma block_eq (p q r : Z) (a b c kpp kpq kpr kqp kqq kqr krp krq krr : T) :
              (r, p, krp); (r, q, krq); (r, r, krr)] i j.
 Proof.
   intros -> -> -> -> -> -> -> -> -> i j.
-  unfold laplacian_tri, lap_edges. cbn [flat_map]. unfold lap_coeffs. cbn [app entry].
-  destruct (p =? i)%Z, (p =? j)%Z, (q =? i)%Z, (q =? j)%Z, (r =? i)%Z, (r =? j)%Z; cbn [andb]; ring.
+  rewrite !(entry_bil T O Rth). unfold bil, laplacian_tri, lap_edges. cbn [flat_map]. unfold lap_coeffs.
+  cbn [app Proofs_Dual.lsum]. ring.
 Qed.
 
 (* a face of the mesh is non-degenerate: three distinct vertices, and the norm of its normal is a non-zero square root *)
@@ -170,14 +170,14 @@ Proof.
   assert (N0 : vnorm O ((R -v P) x (Q -v P)) = vnorm O n).
   { unfold vnorm. f_equal. rewrite nn_flip. reflexivity. }
   assert (N1 : vnorm O ((P -v Q) x (R -v Q)) = vnorm O n).
-  { unfold vnorm. f_equal. rewrite nn_flip. apply nn_rot1. }
+  { unfold vnorm. f_equal. rewrite nn_flip. apply (nn_rot1 P Q R _ Hs). }
   assert (N2 : vnorm O ((Q -v R) x (P -v R)) = vnorm O n).
-  { unfold vnorm. f_equal. rewrite nn_flip. apply nn_rot2. }
+  { unfold vnorm. f_equal. rewrite nn_flip. apply (nn_rot2 P Q R _ Hs). }
   rewrite N0, N1, N2. fold n.
   pose proof (stiff_scalars P Q R (vnorm O n) Hs Hs0
                 (<< n , n >>) (<< (R -v Q) x (P -v Q) , (R -v Q) x (P -v Q) >>)
                 (<< (P -v R) x (Q -v R) , (P -v R) x (Q -v R) >>)
-                eq_refl (nn_rot1 P Q R) (nn_rot2 P Q R)) as K.
+                eq_refl (nn_rot1 P Q R _ Hs) (nn_rot2 P Q R _ Hs)) as K.
   cbv zeta in K. destruct K as (K1 & K2 & K3 & K4 & K5 & K6 & K7 & K8 & K9).
   apply block_eq; assumption.
 Qed.
@@ -192,5 +192,195 @@ Proof.
   - rewrite !(entry_app T O Rth). rewrite face_eq by (apply H; left; reflexivity).
     rewrite IH by (intros g Hg; apply H; right; exact Hg). reflexivity.
 Qed.
+
+
+(* ------------------------------------------------------------------ face bases: gradient rows *)
+Definition vscale' (c : T) (u : vec) : vec := vscale O c u.
+
+(* (X, Y) is a direct orthonormal tangent basis of the triangle P Q R whose normal n has norm s:  X x Y = n / s *)
+Definition basis_ok (P Q R X Y : vec) (s : T) : Prop :=
+  << X , X >> = 1 /\ << Y , Y >> = 1 /\ << X , Y >> = 0 /\ vscale O s (X x Y) = (Q -v P) x (R -v P).
+
+Lemma vec_eq (a0 a1 a2 b0 b1 b2 : T) : a0 = b0 -> a1 = b1 -> a2 = b2 -> (a0, a1, a2) = (b0, b1, b2).
+Proof. intros -> -> ->. reflexivity. Qed.
+
+Lemma lagrange (X Y : vec) : << X x Y , X x Y >> = << X , X >> * << Y , Y >> - << X , Y >> * << X , Y >>.
+Proof. destruct X as [[x0 x1] x2], Y as [[y0 y1] y2]. cbn. ring. Qed.
+
+(* completeness of (X, Y, X x Y) in dimension 3, as a polynomial identity *)
+Lemma complete (X Y u w : vec) :
+  << u , w >> * << X x Y , X x Y >> =
+  << u , X x Y >> * << w , X x Y >> + << u , X >> * << w , X >> * << Y , Y >> + << u , Y >> * << w , Y >> * << X , X >>
+  - << X , Y >> * (<< u , X >> * << w , Y >> + << u , Y >> * << w , X >>).
+Proof. destruct X as [[x0 x1] x2], Y as [[y0 y1] y2], u as [[u0 u1] u2], w as [[w0 w1] w2]. cbn. ring. Qed.
+
+Lemma dot_scale (c : T) (u w : vec) : << u , vscale O c w >> = c * << u , w >>.
+Proof. destruct u as [[u0 u1] u2], w as [[w0 w1] w2]. cbn. ring. Qed.
+
+Lemma mul_cancel (c z : T) : c <> 0 -> c * z = 0 -> z = 0.
+Proof. intros Hc H. assert (E : z = (c * z) / c) by (field; exact Hc). rewrite E, H. field. exact Hc. Qed.
+
+(* in-plane vectors have the same dot product as their coordinates in the basis *)
+Lemma proj_dot (P Q R X Y : vec) (s : T) (u w : vec) : s <> 0 -> basis_ok P Q R X Y s ->
+  << u , (Q -v P) x (R -v P) >> = 0 ->
+  << u , X >> * << w , X >> + << u , Y >> * << w , Y >> = << u , w >>.
+Proof.
+  intros Hs0 (HX & HY & HXY & HW) Hu.
+  assert (HuW : << u , X x Y >> = 0).
+  { apply (mul_cancel s); [exact Hs0|]. rewrite <- dot_scale, HW. exact Hu. }
+  pose proof (complete X Y u w) as C. rewrite lagrange, HX, HY, HXY, HuW in C.
+  transitivity (<< u, w >> * (1 * 1 - 0 * 0)); [|ring].
+  rewrite C. ring.
+Qed.
+
+Lemma edge_in_plane1 (P Q R : vec) : << Q -v P , (Q -v P) x (R -v P) >> = 0.
+Proof. destruct P as [[p0 p1] p2], Q as [[q0 q1] q2], R as [[r0 r1] r2]. cbn. ring. Qed.
+Lemma edge_in_plane2 (P Q R : vec) : << R -v Q , (Q -v P) x (R -v P) >> = 0.
+Proof. destruct P as [[p0 p1] p2], Q as [[q0 q1] q2], R as [[r0 r1] r2]. cbn. ring. Qed.
+Lemma edge_in_plane3 (P Q R : vec) : << P -v R , (Q -v P) x (R -v P) >> = 0.
+Proof. destruct P as [[p0 p1] p2], Q as [[q0 q1] q2], R as [[r0 r1] r2]. cbn. ring. Qed.
+Lemma vdot_sub_l (u v w : vec) : << u -v v , w >> = << w , u >> - << w , v >>.
+Proof. destruct u as [[u0 u1] u2], v as [[v0 v1] v2], w as [[w0 w1] w2]. cbn. ring. Qed.
+Lemma vdot_neg (u v w z : vec) : << u -v v , w -v z >> = << v -v u , z -v w >>.
+Proof. destruct u as [[u0 u1] u2], v as [[v0 v1] v2], w as [[w0 w1] w2], z as [[z0 z1] z2]. cbn. ring. Qed.
+
+(* the three corner dot products, in basis coordinates  x_V = <X,V>, y_V = <Y,V> *)
+Lemma corner_dots (P Q R X Y : vec) (s : T) : s <> 0 -> basis_ok P Q R X Y s ->
+  let xP := << X , P >> in let yP := << Y , P >> in
+  let xQ := << X , Q >> in let yQ := << Y , Q >> in
+  let xR := << X , R >> in let yR := << Y , R >> in
+  << R -v P , Q -v P >> = (xR - xP) * (xQ - xP) + (yR - yP) * (yQ - yP) /\
+  << P -v Q , R -v Q >> = (xP - xQ) * (xR - xQ) + (yP - yQ) * (yR - yQ) /\
+  << Q -v R , P -v R >> = (xQ - xR) * (xP - xR) + (yQ - yR) * (yP - yR).
+Proof.
+  intros Hs0 Hb. cbv zeta. repeat split.
+  - rewrite (vdot_neg R P Q P).
+    rewrite <- (proj_dot P Q R X Y s (P -v R) (P -v Q) Hs0 Hb (edge_in_plane3 P Q R)).
+    rewrite !vdot_sub_l. ring.
+  - rewrite (vdot_neg P Q R Q). rewrite <- (proj_dot P Q R X Y s (Q -v P) (Q -v R) Hs0 Hb (edge_in_plane1 P Q R)).
+    rewrite !vdot_sub_l. ring.
+  - rewrite (vdot_neg Q R P R). rewrite <- (proj_dot P Q R X Y s (R -v Q) (R -v P) Hs0 Hb (edge_in_plane2 P Q R)).
+    rewrite !vdot_sub_l. ring.
+Qed.
+
+
+(* the weights of the cotan Laplacian on a non-degenerate face, in closed form *)
+Lemma w_cotan_eq (V : list vec) (p q r : Z) : nondeg V (p, q, r) ->
+  let P := vnth O V p in let Q := vnth O V q in let R := vnth O V r in
+  let s := vnorm O ((Q -v P) x (R -v P)) in
+  w_cotan O (cot_simple O) V (p, q, r) =
+  ((<< R -v P , Q -v P >> / s) / two O, (<< P -v Q , R -v Q >> / s) / two O, (<< Q -v R , P -v R >> / s) / two O).
+Proof.
+  intros (Hpq & Hqr & Hrp & Hs & Hs0). cbv zeta.
+  set (P := vnth O V p) in *. set (Q := vnth O V q) in *. set (R := vnth O V r) in *.
+  set (n := (Q -v P) x (R -v P)) in *.
+  unfold w_cotan, lap_w_cotan, corner_cot, face_cots.
+  assert (Epr : (p =? r)%Z = false) by (apply Z.eqb_neq; congruence).
+  assert (Epq : (p =? q)%Z = false) by (apply Z.eqb_neq; congruence).
+  assert (Eqr : (q =? r)%Z = false) by (apply Z.eqb_neq; congruence).
+  rewrite Epr, Epq, Eqr, !Z.eqb_refl.
+  fold P Q R. unfold cot_simple.
+  assert (N0 : vnorm O ((R -v P) x (Q -v P)) = vnorm O n).
+  { unfold vnorm. f_equal. rewrite nn_flip. reflexivity. }
+  assert (N1 : vnorm O ((P -v Q) x (R -v Q)) = vnorm O n).
+  { unfold vnorm. f_equal. rewrite nn_flip. apply (nn_rot1 P Q R _ Hs). }
+  assert (N2 : vnorm O ((Q -v R) x (P -v R)) = vnorm O n).
+  { unfold vnorm. f_equal. rewrite nn_flip. apply (nn_rot2 P Q R _ Hs). }
+  rewrite N0, N1, N2. reflexivity.
+Qed.
+
+(* the basis handed to the gradient for face f is a direct orthonormal tangent basis of f *)
+Definition face_basis_ok (V : list vec) (f : face) (b : vec * vec) : Prop :=
+  let '(p, q, r) := f in
+  let P := vnth O V p in let Q := vnth O V q in let R := vnth O V r in
+  basis_ok P Q R (fst b) (snd b) (vnorm O ((Q -v P) x (R -v P))).
+
+Lemma gram_face_eq (V : list vec) (iT : Z) (f : face) (b : vec * vec) : nondeg V f -> face_basis_ok V f b ->
+  forall i j, entry O (laplacian_tri O (w_cotan O (cot_simple O) V f) f) i j = entry O (gram_face O V (iT, (f, b))) i j.
+Proof.
+  destruct f as [[p q] r], b as [bX bY]. intros Hnd Hb.
+  rewrite (w_cotan_eq V p q r Hnd). cbv zeta.
+  destruct Hnd as (Hpq & Hqr & Hrp & Hs & Hs0). unfold face_basis_ok in Hb. cbn [fst snd] in Hb.
+  set (P := vnth O V p) in *. set (Q := vnth O V q) in *. set (R := vnth O V r) in *.
+  set (s := vnorm O ((Q -v P) x (R -v P))) in *.
+  destruct (corner_dots P Q R bX bY s Hs0 Hb) as (Dp & Dq & Dr). cbv zeta in Dp, Dq, Dr.
+  rewrite Dp, Dq, Dr.
+  unfold gram_face, grad_face, grad_complex. fold P Q R. cbn [flat_map map app].
+  unfold grad_aT, tri_area. fold s.
+  set (xP := << bX , P >>). set (yP := << bY , P >>).
+  set (xQ := << bX , Q >>). set (yQ := << bY , Q >>).
+  set (xR := << bX , R >>). set (yR := << bY , R >>).
+  apply block_eq; unfold two in *; field; split; assumption.
+Qed.
+
+Lemma indexed_from_combine_len {A B} (l : list A) (m : list B) i :
+  length (indexed_from i (combine l m)) = length (combine l m).
+Proof. revert i. induction (combine l m); intros; cbn; [reflexivity | f_equal; apply IHl0]. Qed.
+
+(* Re(G^* A G), accumulated face by face, is the cotan Laplacian - for every direct orthonormal tangent basis per face *)
+Theorem cotan_laplacian_is_gram (V : list vec) (F : list face) (bases : list (vec * vec)) :
+  Forall2 (fun f b => nondeg V f /\ face_basis_ok V f b) F bases ->
+  forall i j, entry O (laplacian_cotan O (cot_simple O) V F) i j = entry O (gram O V F bases) i j.
+Proof.
+  unfold laplacian_cotan, laplacian_gen, gram, indexed. generalize 0%Z as k.
+  intros k H. revert k. induction H as [|f b F bases [Hf Hb] _ IH]; intros k i j; cbn [combine indexed_from flat_map].
+  - reflexivity.
+  - rewrite !(entry_app T O Rth). rewrite (gram_face_eq V k f b Hf Hb). rewrite (IH (k + 1)%Z). reflexivity.
+Qed.
+
+(* ------------------------------------------------------------------ gradient of an affine function *)
+Lemma affine_sum_re (P Q R a Y : vec) (b0 : T) :
+  (<< a , P >> + b0) * (<< Y , Q >> - << Y , R >>) + (<< a , Q >> + b0) * (<< Y , R >> - << Y , P >>)
+  + (<< a , R >> + b0) * (<< Y , P >> - << Y , Q >>) = << a , Y x ((Q -v P) x (R -v P)) >>.
+Proof. destruct P as [[p0 p1] p2], Q as [[q0 q1] q2], R as [[r0 r1] r2], a as [[a0 a1] a2], Y as [[y0 y1] y2]. cbn. ring. Qed.
+Lemma affine_sum_im (P Q R a X : vec) (b0 : T) :
+  (<< a , P >> + b0) * (<< X , R >> - << X , Q >>) + (<< a , Q >> + b0) * (<< X , P >> - << X , R >>)
+  + (<< a , R >> + b0) * (<< X , Q >> - << X , P >>) = - << a , X x ((Q -v P) x (R -v P)) >>.
+Proof. destruct P as [[p0 p1] p2], Q as [[q0 q1] q2], R as [[r0 r1] r2], a as [[a0 a1] a2], X as [[x0 x1] x2]. cbn. ring. Qed.
+(* BAC - CAB *)
+Lemma triple_cross (a X Y : vec) (c : T) :
+  << a , Y x vscale O c (X x Y) >> = c * (<< a , X >> * << Y , Y >> - << a , Y >> * << X , Y >>) /\
+  << a , X x vscale O c (X x Y) >> = c * (<< a , X >> * << X , Y >> - << a , Y >> * << X , X >>).
+Proof. destruct a as [[a0 a1] a2], X as [[x0 x1] x2], Y as [[y0 y1] y2]. cbn. split; ring. Qed.
+
+(* value at the vertices of the affine function x |-> <a, x> + b0, applied to one face's gradient rows *)
+Definition apply_rows (rows : list (Z * Z * (T * T))) (fv : Z -> T) : T * T :=
+  fold_right (fun r acc => let '(_, v, (re, im)) := r in (fv v * re + fst acc, fv v * im + snd acc)) (0, 0) rows.
+
+Theorem gradient_affine_face (V : list vec) (iT : Z) (f : face) (b : vec * vec) (a : vec) (b0 : T) :
+  nondeg V f -> face_basis_ok V f b ->
+  forall fv : Z -> T,
+    (let '(p, q, r) := f in
+     fv p = << a , vnth O V p >> + b0 /\ fv q = << a , vnth O V q >> + b0 /\ fv r = << a , vnth O V r >> + b0) ->
+    apply_rows (grad_face O (grad_complex O) V (iT, (f, b))) fv = (<< a , fst b >>, << a , snd b >>).
+Proof.
+  destruct f as [[p q] r], b as [bX bY]. intros (Hpq & Hqr & Hrp & Hs & Hs0) Hb fv (Fp & Fq & Fr).
+  unfold face_basis_ok in Hb. cbn [fst snd] in *.
+  set (P := vnth O V p) in *. set (Q := vnth O V q) in *. set (R := vnth O V r) in *.
+  set (s := vnorm O ((Q -v P) x (R -v P))) in *.
+  destruct Hb as (HX & HY & HXY & HW).
+  unfold grad_face, grad_complex. fold P Q R. unfold apply_rows. cbn [fold_right fst snd].
+  rewrite Fp, Fq, Fr. unfold grad_aT, tri_area. fold s.
+  pose proof (affine_sum_re P Q R a bY b0) as Ere. pose proof (affine_sum_im P Q R a bX b0) as Eim.
+  rewrite <- HW in Ere, Eim.
+  destruct (triple_cross a bX bY s) as (T1 & T2). rewrite T1 in Ere. rewrite T2 in Eim.
+  rewrite HY, HXY in Ere. rewrite HX, HXY in Eim.
+  apply f_equal2.
+  - transitivity ((s * << a , bX >>) / s); [|field; exact Hs0].
+    replace (s * << a , bX >>) with (s * (<< a , bX >> * 1 - << a , bY >> * 0)) by ring.
+    rewrite <- Ere. unfold two in *. field. split; assumption.
+  - transitivity ((s * << a , bY >>) / s); [|field; exact Hs0].
+    replace (s * << a , bY >>) with (- (s * (<< a , bX >> * 0 - << a , bY >> * 1))) by ring.
+    rewrite <- Eim. unfold two in *. field. split; assumption.
+Qed.
+
+
+(* the real-valued gradient operator stacks the real and imaginary parts of the complex one on rows 2 iT and 2 iT + 1 *)
+Theorem grad_real_is_complex (iT A B C : Z) (xA yA xB yB xC yC aT : T) :
+  grad_real O iT A B C xA yA xB yB xC yC aT =
+  flat_map (fun r : Z * Z * (T * T) => let '(t, v, (re, im)) := r in [((2 * t)%Z, v, re); ((2 * t + 1)%Z, v, im)])
+           (grad_complex O iT A B C xA yA xB yB xC yC aT)
+  /\ grad_real_nrows = (fun M => (M * 2)%Z) /\ (forall M N : Z, grad_shape M N = (M, N)).
+Proof. repeat split. Qed.
 
 End Geom.
